@@ -166,6 +166,15 @@ func (c *c12ctx) opDecode(name string, img []byte) {
 		return ""
 	}, owned...)
 	c.res.Count("decode")
+	// one time in three the decoded PDU is formatted (a gateway logging what it received): formatting is one of the
+	// "later calls" that must leave the result alone — the ledger entry above notices at once
+	if st, ok := p.(fmt.Stringer); ok && c.g.Intn(3) == 0 {
+		Guard(func() { _ = st.String() })
+		c.hist = append(c.hist, "String() on the PDU just decoded")
+		if now := renderRecord(name, snapshot(p)); now != before {
+			c.res.Violate("C12.formatting-changes-the-value:"+name, "String() changed the decoded PDU it formats", []string{op, "string"})
+		}
+	}
 }
 
 func g16(g *Rng) int { return g.Intn(16) }
@@ -244,9 +253,13 @@ func (c *c12ctx) opString(name string, r record) {
 		return
 	}
 	var s string
+	before := renderRecord(name, snapshot(p))
 	oc := Guard(func() { s = st.String() })
 	if oc.Panic != "" {
 		return
+	}
+	if after := renderRecord(name, snapshot(p)); after != before {
+		c.res.Violate("C12.formatting-changes-the-value:"+name, "String() changed the PDU it formats", []string{"string " + name + " " + renderInput(name, r)})
 	}
 	op := "string " + name
 	c.hist = append(c.hist, op)
@@ -598,7 +611,15 @@ func runC12(res *Result, d *Driver, g *Rng, tier string) {
 					c.opFrameThenDecode(name, img, cn)
 				}
 			}
-			c.verify(c.hist[len(c.hist)-1], step%20 == 19 || step == hl-1)
+			if step == hl-1 {
+				// at the end of a history every pooled buffer is taken and overwritten before the last look
+				giveBack := sweepPools()
+				c.hist = append(c.hist, "every buffer of the shared pool taken and overwritten")
+				c.verify(c.hist[len(c.hist)-1], true)
+				giveBack()
+			} else {
+				c.verify(c.hist[len(c.hist)-1], step%20 == 19)
+			}
 		}
 		res.Count("histories")
 	}
